@@ -552,7 +552,8 @@ var writeSubjects = []string{"oj.Writer", "sen.Writer", "pkg.oj", "pkg.sen", "pk
 // needs three particular calls in a row on one subject is out of reach when every call picks among ten).
 type theme07 struct {
 	parse, write []string
-	kind         int // 0 mixed, 1 parse only, 2 write only
+	kind         int  // 0 mixed, 1 parse only, 2 write only
+	long         bool // "long streams": half of the parse inputs are several read buffers long, half of the readers fill every buffer
 }
 
 func drawTheme07(t *rapid.T) *theme07 {
@@ -568,6 +569,9 @@ func drawTheme07(t *rapid.T) *theme07 {
 		th.write = append(th.write, writeSubjects[sim.Intn(t, len(writeSubjects), "themewrite")])
 	}
 	th.kind = sim.Intn(t, 3, "themekind")
+	// what needs two long streams on one subject (a buffer kept across calls, a read-ahead left behind by an abandoned
+	// call) almost never happens when one input in nineteen is long and one schedule in nine fills the buffers
+	th.long = th.kind != 2 && sim.Intn(t, 10, "longstreams") == 0
 	return th
 }
 
@@ -633,7 +637,11 @@ func drawOp07(t *rapid.T, faults bool, th *theme07) *op07 {
 	o.Subj = th.parse[sim.Intn(t, len(th.parse), "psubj")]
 	o.IsParse = true
 	senFam := strings.Contains(o.Subj, "sen")
-	o.Input = drawParseInput(t, senFam)
+	if th.long && sim.Bool(t, "longin") {
+		o.Input = longDoc(t)
+	} else {
+		o.Input = drawParseInput(t, senFam)
+	}
 	if o.Input == nil {
 		o.Input = []byte{}
 	}
@@ -678,6 +686,9 @@ func drawOp07(t *rapid.T, faults bool, th *theme07) *op07 {
 	}
 	if reader {
 		o.Sched = sim.DrawSchedule(t, len(o.Input), nil)
+		if th.long && sim.Bool(t, "fullreads") {
+			o.Sched = &sim.Schedule{Style: "full", FailAt: -1, EOFWithData: sim.Bool(t, "eofWithData")}
+		}
 	}
 	if o.Fn == "Unmarshal" && o.Subj == "oj.Parser" {
 		o.Mode = sim.Intn(t, 2, "recomposerarg") // 1: with the recomposer argument
